@@ -14,6 +14,8 @@ STATES = ZA + "::states"
 
 def run(rep):
     prog = rep.prog
+    from .c15 import wire_group_membership
+    wire_group_membership(rep)
     rep.rule("who-may-construct", "VerifiedBlindedMessage is built only in the accepting arm of SignatureRequestProof::verify_knowledge_of_opening")
     rep.rule("not-forgeable", "no public constructor / field / unwrapping accessor of VerifiedBlindedMessage is nameable outside the crate")
     rep.rule("srp-exact", "the constructing verifier returns Some iff R_cp under (g1, Y) of the argument key and challenge; payload = the proof's own commitment")
